@@ -36,6 +36,8 @@ Record tls_facts := mkFacts {
   f_server_name_set : bool;     (* ServerName key present (the endpoint name would no longer be what is verified) *)
   f_client_cert : client_cert_source;
   f_custom_verify : bool;       (* VerifyPeerCertificate / VerifyConnection present *)
+  f_suites_tls12_only : bool;   (* CipherSuites present and none of the listed suites exists before TLS 1.2
+                                   (no HMAC-SHA1 suite): a TLS 1.0 / 1.1 handshake finds no common suite *)
   f_dial_creds : list creds_kind; (* every transport-credentials dial option of NewSigner, in order *)
   f_args_wired : bool;          (* NewSigner passes conf.TLSClientCertFile, conf.TLSClientKeyFile, conf.TLSCACertFiles, in that order *)
   f_opts_used : bool            (* Signer.dialOptions is that option list, postUserSSHCertificate dials with it,
@@ -78,7 +80,8 @@ Definition transport_of (f : tls_facts) : transport :=
     MaxVersion 0 means TLS 1.3. *)
 Definition cfg_of (f : tls_facts) (e : env) : client_cfg :=
   mkCfg (transport_of f)
-        (if (f_min_version f =? 0)%N then tls12 else f_min_version f)
+        (let m := if (f_min_version f =? 0)%N then tls12 else f_min_version f in
+         if f_suites_tls12_only f then N.max m tls12 else m)
         (if (f_max_version f =? 0)%N then tls13 else f_max_version f)
         (f_skip_verify f)
         (match f_roots f with
